@@ -59,7 +59,7 @@ CHECKS.update({
              "unit (6 units and im, with and without a blank), bit strings keep their bits and their bit count is the type's width.",
         note="Trusted: from_str_radix model (exact arithmetic), string and text-size models, abstract token (text + symbolic start offset), "
              "tree / map models, MIR dump, z3. Bounds: accessors <= 5 (quick) / 7 (thorough) digit characters; graph arm decimal <= 9 / 12, hex "
-             "<= 4 / 8 digits, bit strings <= 8 / 16 bits; float rounding declined (float texts are compared, values are opaque).",
+             "<= 4 / 8 digits, bit strings <= 8 / 10 bits; float rounding declined (float texts are compared, values are opaque).",
         technique=MC, design="6/C10"),
     "C11": dict(
         text="(a) one Cursor::advance_token followed by the real inner_extend_token, and LexedStr::new on whole strings, are executed from MIR "
